@@ -128,7 +128,7 @@ def cases(draw):
         payload = True
     edit, S2 = edit_and_result(draw, S)
     nh = 1
-    dest = draw(st.sampled_from(["absent", "absent", "initialised", "initialised", "empty", "doc_only"]))
+    dest = draw(st.sampled_from(["absent", "absent", "initialised", "initialised", "empty", "doc_only", "removed"]))
     dest_p = 1 if edit["op"] in ("move", "clone") and edit.get("p") == 1 else 0
     if S2 is not None and dest != "absent":
         if dest == "initialised":
@@ -136,6 +136,13 @@ def cases(draw):
             nh += 1
             ops.append({"op": "write", "h": nh - 1, "name": "dest.txt", "data": "dest payload"})
             ops.append({"op": "doc_set", "h": nh - 1, "k": "dest", "v": 1})
+        elif dest == "removed":
+            # the destination existed earlier in this session and was removed: the project's state point cache
+            # still knows its id, the directory is gone
+            ops.append({"op": "new_init", "p": dest_p, "sp": S2})
+            nh += 1
+            ops.append({"op": "write", "h": nh - 1, "name": "dest.txt", "data": "old destination"})
+            ops.append({"op": "remove", "h": nh - 1})
         else:
             ops.append({"op": "plant_dest", "p": dest_p, "sp": S2, "kind": dest})
     # provenance of the editing handle
@@ -176,6 +183,20 @@ def cases(draw):
     e = dict(edit)
     e["h"] = editor
     ops.append(e)
+    follow = draw(st.sampled_from([None, None, "back", "copy_after_move"]))
+    if follow == "back" and edit["op"] not in ("move", "clone"):
+        # there and back: the second change returns to an id this session has already seen
+        ops.append({"op": "sp_assign", "h": editor, "sp": S, "via": draw(st.sampled_from(["sp", "statepoint"]))})
+        ops.append({"op": "new_project", "p": 0})
+        ops.append({"op": "new_id", "p": 0, "k": draw(st.integers(0, 3)), "how": "id"})
+        nh += 1
+    if edit["op"] == "move" and follow is not None:
+        # a shallow copy taken right after the move (the moved handle not looked at in between), then a state
+        # point change through either of the two: both must follow
+        e["lazy"] = True
+        ops.append({"op": "copy", "h": editor})
+        nh += 1
+        ops.append({"op": "sp_set", "h": draw(st.sampled_from([editor, nh - 1])), "k": draw(KEY), "v": draw(VAL)})
     # observe / use every handle afterwards
     for i in range(nh):
         ops.append({"op": "touch_sp", "h": i})
